@@ -488,6 +488,19 @@ def r03_6(ctx, run, info):
     h = info["handle"]
     shapes = [s for s in opener_shape(run) if norm(s[1].targets[0]) == h]
     if not shapes:
+        # opened through a helper of the program (a shared opener): the helper is read instead
+        for st in walk_own(run.node):
+            if isinstance(st, ast.Assign) and norm(st.targets[0]) == h:
+                for c in ast.walk(st.value):
+                    cal = repo.resolve_call(run, c) if isinstance(c, ast.Call) else None
+                    if cal is not None:
+                        hs = opener_shape(cal)
+                        if hs:
+                            shapes = hs[:1]
+                            run = cal
+                        else:
+                            raise AnalysisError("R03.6", run.where(st), f"the indexed file is opened through `{norm(c)[:50]}`, whose opener idiom is not recognised")
+    if not shapes:
         # how is the handle opened at all?
         defs = [norm(st.value) for st in walk_own(run.node) if isinstance(st, ast.Assign) and norm(st.targets[0]) == h]
         if any(isinstance(st, ast.Assign) and norm(st.targets[0]) == h and isinstance(st.value, ast.Call) and isinstance(st.value.func, ast.Name) and st.value.func.id in {x.id for x in walk_own(run.node) if isinstance(x, ast.Name) and isinstance(x.ctx, ast.Store)} for st in walk_own(run.node)):
